@@ -600,11 +600,19 @@ def rule_owner(ctx):
                     for x2 in ast.walk(f2):
                         if isinstance(x2, ast.Call) and is_self_attr(x2.func) and x2.func.attr in consumers and x2.func.attr != "processIqRegistry":
                             consumers.discard(x2.func.attr)
+            from ..layers import event_handlers
+            from ..consts import Evaluator as _Ev, alts as _alts
+            table = event_handlers(repo, c)
+            netc = repo.cls("yowsup/layers/network/layer.py", "YowNetworkLayer")
+            down_events = {a_[0] for a_ in (_alts(_Ev(repo, netc.module, netc).class_const(netc, n_)) for n_ in ("EVENT_STATE_DISCONNECTED", "EVENT_STATE_DISCONNECT")) if a_}
             for name, f in sorted(c.methods.items()):
                 # dropping what is pending when the connection is gone is not a correlation error: replies to those
-                # requests can no longer arrive
-                on_down = any(isinstance(d, ast.Call) and unparse(d.func).split(".")[-1] == "EventCallback" and d.args and unparse(d.args[0]).endswith(("EVENT_STATE_DISCONNECTED", "EVENT_STATE_DISCONNECT"))
-                              for d in f.decorator_list)
+                # requests can no longer arrive.  Which methods handle those events: the table the constructor registers.
+                if table is not None:
+                    on_down = any(m_ == name and ev_ in down_events for ev_, m_ in table.items())
+                else:
+                    on_down = any(isinstance(d, ast.Call) and unparse(d.func).split(".")[-1] == "EventCallback" and d.args and unparse(d.args[0]).endswith(("EVENT_STATE_DISCONNECTED", "EVENT_STATE_DISCONNECT"))
+                                  for d in f.decorator_list)
                 if on_down:
                     n += 1
                     continue
